@@ -120,6 +120,12 @@ CLAIMED = {
         text="Lean (legacy parser of the 20 State-configured derives, transcribed from parse_punctuated_nested_meta / get_meta_info): parseMetas equals applying the list of set-once atoms its parameters denote (parseMetas_eq, mutual induction); hence any permutation of the parameters gives the same MetaInfo or the same rejection (order_independent), a parameter outside the position's allow-list is rejected wherever it stands (unknown_rejected), a parameter given twice is rejected (repeated_rejected), a parameter and its not(..) negation are rejected in either order (contradiction_rejected), and a second attribute, the name-value form, an attribute where the allow-list is empty and the bare word where ignore is not allowed are rejected (attribute_forms_rejected). Tie: 6000 generated (allow-list, attribute list) inputs, model vs the real function. Typed attributes and fmt attributes: 39 hand-written + 226 generated pairs of documented alternative spellings (skip/ignore, bound/bounds, one attribute with several types vs several attributes in every order, trailing commas, order of independent attributes) must expand to the identical set of impls, and 73 single-step corruptions at documented positions (unknown, duplicated, conflicting, meaningless for the item kind, pre-1.0 syntax) must yield a diagnostic",
         note="partial: Lean kernel for the legacy parser model; tables for the typed attributes",
         ref="DESIGN.md §4 C17"),
+    "C01": dict(
+        level="proof",
+        technique="Lean 4 theorems about a model of syn's split_for_impl printing and the generics helpers of utils.rs (for every generics list) + correspondence of the model header with the impl headers of the working-tree expansions + rustc's verdict under #![deny(warnings)] on a generated shape space with the real macro (partial: `compiles without warnings` is decided by rustc on the generated space, not proved)",
+        text="Lean (scoping core): for every generics list the printed impl parameters have all lifetimes first (lifetimes_first_impl), the arguments applied to the type are a permutation of its declared parameters - each once, nothing else (self_args_exact), every applied argument is declared by the impl after each helper (args_declared_plain / _bound / _extra_param / _extra_type_param / _where), add_extra_generic_type_param loses and duplicates nothing (extra_type_param_perm), a fresh parameter name stays unique (fresh_param_unique), declared where-predicates are all kept and only the given ones added (where_predicates_kept), added bounds stay in scope (added_bounds_in_scope). Tie: 1563 impl headers of the working-tree expansions (every derive on 12 generic headers: none, type, lifetime+type, type+const, const before type, six mixed parameters with inline bounds, type default, where clause, const default, lifetime only, const only, where on lifetime/const) have exactly the model's impl generics (plain / extra lifetime / inserted type parameter / pushed type parameters) and apply exactly the declared parameters to the type. rustc: 2976 items (those headers x 50 derives x tuple / named (raw field name) / enum shapes x plain, #[deprecated] member, uninhabited member; format arguments with `.*` and `1$`) compiled with the real macro under #![deny(warnings)]",
+        note="partial: Lean kernel for the header model; rustc decides compilation on the generated space; one known finding (scalar Mul-like with two fields differing only by a lifetime)",
+        ref="DESIGN.md §4 C01"),
 }
 
 NOT_APPLICABLE = {}
